@@ -32,3 +32,15 @@ def register(reg):
                  ("mx_default", "result['mx'] is None"), ("not_fast", "result['fast'] == False"),
                  ("concat", "result['concat'] == 0")],
         frame=[], props=("C07", "C19")))
+    # the same function called with per-level cost vectors (H-Revolve)
+    V2 = ("tuple", ["real", "real"])
+    reg.add(Contract(
+        "seq.utils.revolver_parameters#vectors",
+        params=[("wd", V2), ("rd", V2), ("uf", "real"), ("ub", "real")],
+        returns=("dict", {"uf": "real", "ub": "real", "up": "int", "wd": V2, "rd": V2, "mx": "none",
+                          "one_read_disk": "bool", "fast": "bool", "concat": "int", "print_table": "str"}),
+        ensures=[("uf", "result['uf'] == uf"), ("ub", "result['ub'] == ub"),
+                 ("wd", "result['wd'][0] == wd[0] and result['wd'][1] == wd[1]"),
+                 ("rd", "result['rd'][0] == rd[0] and result['rd'][1] == rd[1]"),
+                 ("concat", "result['concat'] == 0")],
+        frame=[], props=("C07",)))
